@@ -3,7 +3,13 @@ package main
 var goAssume = "go1.23.5 linux/amd64; library built from /repo's working tree through go build -overlay"
 
 var props = map[string]propMeta{
+	"C01": {Level: "exploration", Builds: []build{bPlain, bDebug},
+		Rule: "length structures (full declared-length x buffer-length product on Message.Decode/Decode, neighbourhood product on all 7 entry points x capacity slack {0,1,3,64} x fresh/used Message), tiny-alphabet bodies, the 65535-byte family; release and debug builds; oracle: no panic, hang watchdog, heap bytes per call <= 64n+4096, on success every Attributes[i].Value is (by pointer) exactly the declared bytes inside the declared body in wire order, IsMessage true, identical result across entry points/capacities; distinct = distinct (variant set, input bytes) (hash set, capped per shard)",
+		Assumptions: []string{goAssume, "cap==len buffers are exact allocations, so a read past the capacity is a bounds panic", "the allocation clause uses the constant 64*n+4096 as 'small multiple'"}},
+	"C02": {Level: "exploration", Builds: []build{bPlain},
+		Rule:        "every length structure (attribute-length sequences over a body bound x declared length x buffer length), every tiny-alphabet body x declared length, the large family and all 65536 type words, each decoded by Message.Decode and by an independent RFC 5389 parser and compared field by field, then Get/Contains/ForEach checked on every type present and one absent; distinct = distinct input byte strings (64-bit hash set, capped at 3M per shard)",
+		Assumptions: []string{goAssume, "value byte content is drawn from fixed fillers; the length/offset structure is what is enumerated exhaustively"}},
 	"C19": {Level: "exploration", Builds: []build{bPlain}, Shards: 4,
-		Rule: "complete domain: all 4096x4 (method,class) pairs through Value/SetType and all 65536 wire words through ReadValue/Decode, each compared with a bit-by-bit reference built from RFC 5389 figure 3; every case is distinct by construction and counted through a hash set",
+		Rule:        "complete domain: all 4096x4 (method,class) pairs through Value/SetType and all 65536 wire words through ReadValue/Decode, each compared with a bit-by-bit reference built from RFC 5389 figure 3; every case is distinct by construction and counted through a hash set",
 		Assumptions: []string{goAssume}},
 }
